@@ -105,6 +105,7 @@ type CaseOutcome struct {
 
 func spawn(i int, o *PoolOpts) (*worker, error) {
 	dir := filepath.Join(o.WorkBase, fmt.Sprintf("w%d", i))
+	os.RemoveAll(dir) // the previous worker process of this slot has exited: its executions' directories can go
 	os.MkdirAll(dir, 0755)
 	args := o.WorkerArgs
 	if args == nil {
@@ -139,7 +140,7 @@ func RunPool(scs []*Scenario, o PoolOpts, handle func(CaseOutcome)) error {
 		o.PerCase = 120 * time.Second
 	}
 	if o.RecycleEach == 0 {
-		o.RecycleEach = 200
+		o.RecycleEach = 100
 	}
 	if o.Workers > len(scs) {
 		o.Workers = len(scs)
